@@ -132,7 +132,9 @@ Consume ==
                 /\ UNCHANGED <<nodes, svcs, dom>>
          [] e.k = "op" /\ e.a = "removed" ->
                 /\ Verdict(<<\E i \in 1..Len(e.paths) : ~BelongsK(e.paths[i], e.kinds[i], e.d)
-                                                         \/ (<<1 - e.d, e.paths[i]>> \in owned /\ <<e.d, e.paths[i]>> \notin owned),
+                                                         \* (directories below a common root are shared)
+                                                         \/ (e.kinds[i] # "dir" /\ <<1 - e.d, e.paths[i]>> \in owned
+                                                                               /\ <<e.d, e.paths[i]>> \notin owned),
                              "RemovedUnderDomain">>, <<FALSE, "">>, e)
                 /\ owned' = {o \in owned : ~(\E i \in 1..Len(e.paths) : o[2] = e.paths[i])}
                 /\ UNCHANGED <<nodes, svcs, dom>>
